@@ -86,6 +86,27 @@ def main():
                 chain.append(f"{nxt[0].op}({nxt[0].args})")
                 cur = nxt[1]
             allp.append(cur)
+        # symbol-counter sweep: procedures rebuilt from source with the global Sym counter preset just below powers of
+        # ten (and elsewhere): the outputs must not depend on how many symbols were created earlier in the process
+        if os.environ.get("DET_SWEEP", "0") == "1":
+            for fname, fac in sorted(getattr(mod, "FACTORIES", {}).items()):
+                # (the counter only ever grows in a real process: presets below its current value are skipped)
+                presets = sorted([10 ** k - dd for k in (3, 4, 5, 6, 7) for dd in (1, 2, 3, 5, 8, 13, 21, 40)] + [54321, 7654321])
+                for pre in presets:
+                    if pre < Sym._unq_count:
+                        continue
+                    rec = {"key": f"{m.split('.')[-1]}.{fname}@factory", "step": 0, "chain": []}
+                    try:
+                        signal.alarm(120)
+                        Sym._unq_count = pre
+                        q = fac()
+                        c, h = compile_procs_to_strings([q], "det.h")
+                        signal.alarm(0)
+                        rec.update({"str": dig(str(q)), "c": dig(c), "h": dig(h)})
+                    except BaseException as e:
+                        signal.alarm(0)
+                        rec.update({"str": "E:" + type(e).__name__, "c": "E", "h": "E"})
+                    print(json.dumps(rec), flush=True)
         # multi-procedure compiles: several memories / configs / window structs / externs in one library
         from exo.stdlib.scheduling import rename
         libs = {"LIB": list(mod.PROCS)[:16]}
